@@ -37,6 +37,16 @@ class Check:
         self.explanation = ""
         self.known = [k for k in load_known() if k.get("property") == prop and k.get("status", "known") == "known"]
         self.known_hit = set()
+        self.deferred = []
+
+    def defer(self, table, *args):
+        """Run one table / rule group.  An analysis that cannot be completed (ANALYSIS-BROKEN) in one group does not keep the
+        other groups from running: a violation found elsewhere is still reported (exit 1, with a note); without any violation the
+        first broken analysis is the result (exit 2), as before."""
+        try:
+            table(*args)
+        except AnalysisBroken as e:
+            self.deferred.append(e)
 
     # ------------------------------------------------------------------ recording
     def rule(self, rid, doc, floor=1):
@@ -84,11 +94,17 @@ class Check:
         counts = {}
         for o in self.obligations:
             counts[o["rule"]] = counts.get(o["rule"], 0) + 1
-        for rid, fl in self.rule_floor.items():
-            if counts.get(rid, 0) < fl:
-                raise AnalysisBroken("rule %s matched %d instances, floor is %d (anchors moved or rule vacuous)"
-                                     % (rid, counts.get(rid, 0), fl))
         viol = [o for o in self.obligations if not o["ok"]]
+        unlisted = [o for o in viol if not any(k.get("rule") == o["rule"] and k.get("instance") == o["instance"] for k in self.known)]
+        if self.deferred and not unlisted:
+            raise self.deferred[0]
+        for e in self.deferred:
+            print("note: analysis incomplete in one rule group (%s); the violations below come from the groups that completed" % e)
+        if not self.deferred:
+            for rid, fl in self.rule_floor.items():
+                if counts.get(rid, 0) < fl:
+                    raise AnalysisBroken("rule %s matched %d instances, floor is %d (anchors moved or rule vacuous)"
+                                         % (rid, counts.get(rid, 0), fl))
         new, known = [], []
         for o in viol:
             k = self._is_known(o)
